@@ -100,7 +100,7 @@ func cat(ts ...[]Tok) []Tok {
 // values, shared values across annotations and query hits are frequent).  No name ends in _user/_time, none is "user".
 var Vocab = []FieldSpec{
 	{"type", toks("str", `"KC"`, `"KCab"`, `"MBON01"`, `"ORN_DA1"`, `""`, `"a b"`, `"re/x"`, `"ü\"q\\"`, `"<t>&"`)},
-	{"status", toks("str", `"Traced"`, `"Anchor"`, `"Orphan"`, `"0"`)},
+	{"status", cat(toks("str", `"Traced"`, `"Anchor"`, `"Orphan"`, `"0"`), toks("int", `5`))}, // 5 violates the json_schema when one is active
 	{"group", cat(toks("int", `1`, `2`, `0`), toks("bigint", `9007199254740991`, `9007199254740992`, `9007199254740993`, `18446744073709551615`),
 		toks("negint", `-1`, `-9007199254740993`), toks("digitstr", `"123"`))},
 	{"size", cat(toks("float", `0.5`, `-2.25`, `1e-7`, `1.5e300`), toks("int", `100`, `2`))},
